@@ -162,4 +162,6 @@ static std::string h_convo(const std::string& arg)
 	catch(std::exception& e) { return std::string("exc:") + exc_name(e); }
 }
 HANDLER("convo", h_convo);
+// convox: the same request, for songs beyond the reach of the Lean model of the optimiser (see optx)
+static Registrar reg_convox("convox", h_convo);
 static Registrar reg_convwf("convwf", h_conv);
